@@ -146,9 +146,10 @@ def apply(c, twin, op):
                 return "KeyError"
         if kind == "nps":
             _, i, d, form, a, b = op
-            args = {"none": (), "tick": (a,), "ticks": (a, a + b), "time": (timedelta(microseconds=a * 1000),),
-                    "times": (timedelta(microseconds=a), timedelta(microseconds=a + b * 1000)), "neg": (-1,),
-                    "tspan": (timedelta(microseconds=a), timedelta(microseconds=b))}.get(form, (a + b + 1, a))
+            # (built per form, lazily: the numbers of one form are not meaningful — and may not even be representable — in another)
+            args = {"none": lambda: (), "tick": lambda: (a,), "ticks": lambda: (a, a + b), "time": lambda: (timedelta(microseconds=a * 1000),),
+                    "times": lambda: (timedelta(microseconds=a), timedelta(microseconds=a + b * 1000)), "neg": lambda: (-1,),
+                    "tspan": lambda: (timedelta(microseconds=a), timedelta(microseconds=b))}.get(form, lambda: (a + b + 1, a))()
             _detail[0] = _val(lambda: c.notes_per_second(ins[i], dif[d], *args))
             return "ValueError" if _detail[0] == "VE" else "found"
         if kind == "tsat":
